@@ -71,8 +71,8 @@ PROPS.update({
     "C10": dict(pkg="./props/c10_fallback", tests=[REGRESS(), T("TestFallback", (8, 6000), (16, 100000)), T("TestFallbackViewStable", (2, 300), (4, 6000))],
         rule=COMPOSE_RULE + "a fallback was applied AND (the failure it handled came from a library-generated error: ExceededError, ErrOpen, ErrFull, rate-limit or timeout error; or the fallback has a HandleResult/HandleIf condition). Profile: fallback outermost, full error universe, all policy kinds inside. TestFallbackViewStable: the fallback function reads LastResult/LastError on entry and again after its execution was cancelled while it runs (enclosing Timeout, ExecutionResult.Cancel, caller context): both readings are the failure it handles; non-trivial when the cancellation arrived while the function was running.",
         assumptions=COMPOSE_ASSUMPTIONS),
-    "C11": dict(pkg="./props/c11_cache", tests=[REGRESS(), T("TestCache", (8, 5000), (16, 80000)), T("TestCacheOverlapping", (4, 1500), (8, 20000))],
-        rule=COMPOSE_RULE + "a cache hit that follows a store made by an earlier step of the same history, or a context key that conflicts with a configured key after something was stored, or an error outcome stored through a matching CacheIf. Profile: cache-heavy pools sharing one instrumented cache, stateful policies inside, histories up to 10 steps with direct cache writes/deletes. TestCacheOverlapping: 2..6 executions with generated keys overlap inside one cache policy (parked in the function, completed in a generated order); non-trivial when at least two different keys are involved.",
+    "C11": dict(pkg="./props/c11_cache", tests=[REGRESS(), T("TestCache", (8, 5000), (16, 80000)), T("TestCacheOverlapping", (4, 1500), (8, 20000)), T("TestCacheZeroValues", (2, 3000), (4, 60000))],
+        rule=COMPOSE_RULE + "a cache hit that follows a store made by an earlier step of the same history, or a context key that conflicts with a configured key after something was stored, or an error outcome stored through a matching CacheIf. Profile: cache-heavy pools sharing one instrumented cache, stateful policies inside, histories up to 10 steps with direct cache writes/deletes. TestCacheOverlapping: 2..6 executions with generated keys overlap inside one cache policy (parked in the function, completed in a generated order); non-trivial when at least two different keys are involved. TestCacheZeroValues: result type any; histories of Get / Run executions, direct writes and deletions with entries such as nil (what Run stores), typed nil, 0, the empty string and an empty slice, compared with a map; non-trivial = a nil entry was cached.",
         assumptions=COMPOSE_ASSUMPTIONS + ["an empty string under cachepolicy.CacheKey in the context counts as a string key supplied through the context (it takes precedence over a configured key) and as no key (nothing is read or written)"]),
     "C16": dict(pkg="./props/c16_events", tests=[REGRESS(), T("TestEvents", (8, 6000), (16, 120000)), T("TestEventsConcurrent", (4, 1500), (8, 30000)), T("TestEventsWhenWaitsAreCancelled", (2, 600), (4, 8000)), T("TestBreakerEventPathConcurrent", (4, 300), (8, 6000)), T("TestHedgedRetryEvents", (4, 500), (8, 10000))],
         prefer_json_tests=["TestHedgedRetryEvents"], replay_reps=300,
